@@ -129,6 +129,9 @@ def _annotation(fm: FuncModel, name: str) -> str | None:
     for n in own_walk(fm.f.node):
         if isinstance(n, ast.AnnAssign) and isinstance(n.target, ast.Name) and n.target.id == name:
             return text(n.annotation)
+        if isinstance(n, ast.Assign) and getattr(n, "_ann", None) is not None and isinstance(n.targets[0], ast.Name) \
+                and n.targets[0].id == name:
+            return text(n._ann)
     return None
 
 
@@ -450,15 +453,31 @@ def n2(ck: Check) -> None:
             raise AnalysisError(f"anchor vanished: {key}")
         fm = prog.model(prog.repo.functions[key])
         for n in own_walk(fm.f.node):
-            if isinstance(n, ast.Assign) and isinstance(n.value, ast.Call) and callee_name(n.value) == "node_successors" \
-                    and isinstance(n.targets[0], ast.Name):
-                v = n.targets[0].id
-                dn = fm.cfgn(n)
-                # the next definition of v on every path must be sorted(v ...) before any other use
-                bad = _unsorted_use(fm, v, dn)
-                ck.ob("N2", fm, n, bad is None, f"`{v}` sorted before it is traversed" if bad is None else
-                      f"successor list `{v}` is used at line {bad} in the order the graph happens to store it: node visiting "
-                      f"order (and the ids of nodes created later) depend on the history of the diagram")
+            if isinstance(n, ast.Call) and callee_name(n) == "node_successors":
+                # climb order-only wrappers
+                top, srt = n, False
+                par = fm.f.parents.get(top)
+                while isinstance(par, ast.Call) and callee_name(par) in ("sorted", "list", "tuple", "reversed") and par.args \
+                        and par.args[0] is top:
+                    srt = srt or callee_name(par) == "sorted"
+                    top, par = par, fm.f.parents.get(par)
+                st = fm.f.stmt_of(n)
+                holder = None
+                if isinstance(st, (ast.Assign, ast.AnnAssign)) and st.value is top:
+                    tg = st.targets[0] if isinstance(st, ast.Assign) else st.target
+                    holder = tg.id if isinstance(tg, ast.Name) else None
+                if srt:
+                    ck.ob("N2", fm, st, True, "successor list sorted where it is obtained")
+                elif holder is not None:
+                    dn = fm.cfgn(st)
+                    # the next definition of the holder on every path must be sorted(holder ...) before any other use
+                    bad = _unsorted_use(fm, holder, dn)
+                    ck.ob("N2", fm, st, bad is None, f"`{holder}` sorted before it is traversed" if bad is None else
+                          f"successor list `{holder}` is used at line {bad} in the order the graph happens to store it: node "
+                          f"visiting order (and the ids of nodes created later) depend on the history of the diagram")
+                elif isinstance(par, ast.For) and par.iter is top:
+                    ck.ob("N2", fm, st, False, "successor list traversed in the order the graph happens to store it: node "
+                          "visiting order (and the ids of nodes created later) depend on the history of the diagram")
             if isinstance(n, ast.For):
                 at = fm.cfgn(n.iter)
                 base = n.iter
